@@ -547,6 +547,9 @@ def gen_multi(ctx):
         for first in ('users', 'posts'):
             for coerce in (True, False):
                 yield dict(part='samename', disp=disp, first=first, coerce=coerce)
+        for v in ('base', 'js', 'pd'):
+            for order in itertools.permutations(['who', 'ping', 'version']):
+                yield dict(part='noargs', disp=disp, validator=v, order=list(order) + list(order))
         for group in ('float', 'int'):
             for order in itertools.permutations(range(3)):
                 for coerce in (True, False):
@@ -682,6 +685,53 @@ def run_eqsig(case, rec):
     return tuple(obs)
 
 
+def run_noargs(case, rec):
+    """methods without client parameters (a context-only method, a parameterless validated method) called in turn with params
+    omitted / [] / {}: each call is bound on its own - nothing (least of all a context object) travels from one call to the next"""
+    from pjrpc.server.validators import BaseValidator
+    is_async = case['disp'] == 'async'
+    log = []
+    vk = case['validator']
+    validator = {'base': BaseValidator, 'js': vjs.JsonSchemaValidator, 'pd': vpd.PydanticValidator}[vk]()
+    ns = {'_log': log}
+    pre = 'async ' if is_async else ''
+    exec(pre + 'def who(request):\n    _log.append(("who", request))\n    return request\n' +
+         pre + 'def ping():\n    _log.append(("ping",))\n    return "pong"\n' +
+         pre + 'def version(flag=False):\n    _log.append(("version", flag))\n    return ["v", flag]\n', ns)
+    who = validator.validate(ns['who']) if vk != 'js' else validator.validate(schema={'type': 'object', 'properties': {}, 'additionalProperties': False})(ns['who'])
+    ping = validator.validate(ns['ping']) if vk != 'js' else validator.validate(schema={'type': 'object', 'properties': {}, 'additionalProperties': False})(ns['ping'])
+    d = pjrpc.server.AsyncDispatcher() if is_async else pjrpc.server.Dispatcher()
+    d.add(who, name='who', context='request')
+    d.add(ping, name='ping')
+    d.add(ns['version'], name='version')
+    want = {'who': ('who', 'CTX'), 'ping': ('ping',), 'version': ('version', False)}
+    wantr = {'who': 'CTX', 'ping': 'pong', 'version': ['v', False]}
+    obs = []
+    for name in case['order']:
+        for params in ('<absent>', [], {}):
+            doc = {'jsonrpc': '2.0', 'id': 1, 'method': name}
+            if params != '<absent>':
+                doc['params'] = params
+            del log[:]
+            if is_async:
+                loop = VLoop()
+                try:
+                    r = loop.run(d.dispatch(json.dumps(doc), context='CTX'))
+                finally:
+                    loop.close()
+            else:
+                r = d.dispatch(json.dumps(doc), context='CTX')
+            resp = json.loads(r[0])
+            rec.transitions += 1
+            ok = resp.get('result') == wantr[name] and log == [want[name]]
+            rec.outcomes['noargs:%s' % ('ok' if ok else 'BAD')] += 1
+            if not ok:
+                rec.violation('C14:calls without arguments:a parameterless call is refused / sees something left behind by an earlier call', dict(case, method=name, params=params),
+                              expected=wantr[name], observed=dict(response=resp, saw=repr(log)))
+            obs.append(ok)
+    return tuple(obs)
+
+
 def run_viewpred(case, rec):
     """a class based view method under a validator whose exclusion predicate also matches the (unannotated) `self`"""
     import inspect
@@ -742,7 +792,7 @@ def gen_cases(ctx):
 def run_case(case, rec):
     from mc.core import Recorder
     r = Recorder()
-    obs = {'js': run_js, 'ctx': run_ctx, 'pd': run_pd, 'multi': run_multi, 'viewpred': run_viewpred, 'samename': run_samename, 'eqsig': run_eqsig}[case['part']](case, r)
+    obs = {'js': run_js, 'ctx': run_ctx, 'pd': run_pd, 'multi': run_multi, 'viewpred': run_viewpred, 'samename': run_samename, 'eqsig': run_eqsig, 'noargs': run_noargs}[case['part']](case, r)
     r.states += 1
     r.traces += 1
     r.nontrivial_n += 1
